@@ -119,7 +119,10 @@ fn connect_admin(node: &Node) -> Session {
 /// after a command: the records that appeared belong to `cands`
 fn absorb(w: &mut World, cands: &[(String, String, u8)], positional: bool) {
     let all = scan_all(&w.dir);
-    let fresh: Vec<Rec> = all.into_iter().filter(|r| !w.seen.contains(r)).collect();
+    let mut fresh: Vec<Rec> = all.into_iter().filter(|r| !w.seen.contains(r)).collect();
+    // (the record that crosses the file-size limit is written at the end of the old file and again at the start of the
+    // new one: one record)
+    fresh.dedup();
     for (j, r) in fresh.iter().enumerate() {
         w.seen.insert(r.clone());
         let e = w.expected.entry(r.clone()).or_default();
@@ -452,7 +455,7 @@ pub fn binary_path() -> String {
 /// starts the real binary on `dir`, waits until its TCP port answers (the start-up block is then over) or it exits, kills it
 const POST_START_SCRIPT: &str = "auth admin-user admin-pwd\ncreate-db xcheck xtoken\nuse-db xcheck xtoken\nset xk v\n";
 
-fn run_real_binary(dir: &str, mut after_start: Option<&mut BTreeMap<String, (u64, u64)>>, expected_after_script: &BTreeMap<String, (u64, u64)>) -> Result<(), String> {
+fn run_real_binary(dir: &str, mut after_start: Option<&mut BTreeMap<String, (u64, u64)>>, expected_after_start: &BTreeMap<String, (u64, u64)>, expected_after_script: &BTreeMap<String, (u64, u64)>) -> Result<(), String> {
     let (tcp, http, ws) = (crate::transport::free_port(), crate::transport::free_port(), crate::transport::free_port());
     let mut child = std::process::Command::new(binary_path())
         .args(["-u", crate::node::USER, "-p", crate::node::PWD, "start", "--tcp-address", &format!("127.0.0.1:{}", tcp), "--http-address", &format!("127.0.0.1:{}", http), "--ws-address", &format!("127.0.0.1:{}", ws)])
@@ -471,8 +474,12 @@ fn run_real_binary(dir: &str, mut after_start: Option<&mut BTreeMap<String, (u64
             break;
         }
         if std::net::TcpStream::connect(("127.0.0.1", tcp)).is_ok() {
-            // give the replication loop the instant it needs to open its files
-            crate::transport::real_sleep(std::time::Duration::from_millis(60));
+            // give the replication loop the time it needs to open its files: until the directory looks like the one the
+            // restatement left (a state that stays different for 6 s is the finding, slowness is not)
+            let t1 = std::time::Instant::now();
+            while t1.elapsed() < std::time::Duration::from_secs(6) && file_state(dir) != *expected_after_start {
+                crate::transport::real_sleep(std::time::Duration::from_millis(20));
+            }
             if let Some(state_after_start) = after_start.as_mut() {
                 **state_after_start = file_state(dir);
                 // what the node believes about its op-log shows only in what the next new key does to the files
@@ -536,7 +543,7 @@ pub fn cross_check_dir(src: &str, scratch: &str) -> Option<(String, String)> {
     // reached (a state that stays different is the finding, slowness is not)
     let expected_after_script = by_len(file_state(&b));
     let mut real_after_start = BTreeMap::new();
-    let real = run_real_binary(&a, Some(&mut real_after_start), &expected_after_script);
+    let real = run_real_binary(&a, Some(&mut real_after_start), &restated_after_start, &expected_after_script);
     let out = match (&real, &restated) {
         (Err(e), Ok(())) if e.contains("exited during start-up") => Some(("C16|real-binary-start-up-fails-where-the-restatement-succeeds".to_string(), format!("{} (directory state before: {:?})", e, before))),
         (Ok(()), Err(e)) => Some(("C16|restatement-fails-where-the-real-binary-starts".to_string(), e.clone())),
